@@ -56,17 +56,38 @@ Theorem C05_delivered_unaltered : forall cfg th lg sv tag its e,
   In e (exec_one cfg th lg sv tag its) ->
   match e with
   | Call id => In id (calls_of its)
-  | Format r => r = mkRecord sv (tag_text tag) (message its)
-  | Sink i s t => i < lg_sinks lg /\ s = sv /\ t = c_fmt cfg (mkRecord sv (tag_text tag) (message its))
+  | Format r => r = mkRecord sv (rec_tag lg tag) (message its)
+  | Sink i s t => i < lg_sinks lg /\ s = sv /\ t = c_fmt cfg (mkRecord sv (rec_tag lg tag) (message its))
   | Fault => False
   end.
 Proof. exact one_delivered_content. Qed.
 Print Assumptions C05_delivered_unaltered.
 
-(* the tag is carried as given (string_ref is a C string: a tag without NUL bytes is carried whole) *)
-Theorem C05_tag_carried : forall t, ~ In x00 t -> tag_text (Some t) = t.
+(* the tag is carried as given (string_ref is a C string: a tag without NUL bytes is carried whole) when the logger's record
+   type has a tag attribute *)
+Theorem C05_tag_carried : forall lg t, lg_tagged lg = true -> ~ In x00 t -> rec_tag lg (Some t) = t.
 Proof. exact tag_text_plain. Qed.
 Print Assumptions C05_tag_carried.
+
+(* runtime thresholds belong to ONE logger configuration: severity_filter<Record,k> is keyed by the record type and k.
+   Setting the threshold of record type rc changes no statement, no stream and no enabledness of a logger over another
+   record type, and no other getter *)
+Theorem C05_thresholds_independent : forall cfg th rc k s lg sv tag its,
+  lg_rec lg <> rc ->
+  exec_one cfg (set_threshold th rc k s) lg sv tag its = exec_one cfg th lg sv tag its.
+Proof. exact thresholds_independent_one. Qed.
+Print Assumptions C05_thresholds_independent.
+
+Theorem C05_thresholds_independent_named : forall cfg th rc k s lg sv tag,
+  lg_rec lg <> rc ->
+  make_stream cfg (set_threshold th rc k s) lg sv tag = make_stream cfg th lg sv tag.
+Proof. exact thresholds_independent_named. Qed.
+Print Assumptions C05_thresholds_independent_named.
+
+Theorem C05_min_severity_after_set : forall th rc k s rc' k',
+  min_severity (set_threshold th rc k s) rc' k' = if (rc' =? rc) && (k' =? k) then s else min_severity th rc' k'.
+Proof. exact min_severity_after_set. Qed.
+Print Assumptions C05_min_severity_after_set.
 
 (* every program over named streams, one-expression statements and threshold changes: the stream objects
    (ownership, moves, null streams) behave as the logical streams of LogSpec.spec_op *)
@@ -138,9 +159,11 @@ Module Examples.
 Import Strings.String.
 Local Open Scope string_scope.
 Definition cfg_info := mkConfig Info harness_fmt.
-Definition th_dw : thresholds := set_threshold (set_threshold init_thresholds 0 Debug) 1 Error.
+Definition th_dw : thresholds := set_threshold (set_threshold init_thresholds 0 0 Debug) 0 1 Error.
 (* band filter  T0 <= sev < T1  with a two-member sequence *)
-Definition lg_band := mkLogger (FAnd (FThr 0) (FNot (FThr 1))) 2.
+Definition lg_band := mkLogger 0 true (FAnd (FThr 0) (FNot (FThr 1))) 2.
+(* the same filter type over another record type, one without a tag attribute *)
+Definition lg_band_b := mkLogger 1 false (FAnd (FThr 0) (FNot (FThr 1))) 2.
 Example C05_ex_enabled :
   exec_one cfg_info th_dw lg_band Warn (Some (B "tg")) [IStr (B "a"); INum 42; ICall KLambda 7 (B "x")]
   = [Call 7; Format (mkRecord Warn (B "tg") (B "a42x")); Sink 0 Warn (B "3|tg|a42x"); Sink 1 Warn (B "3|tg|a42x")].
@@ -152,9 +175,13 @@ Example C05_ex_below_minimum :
   exec_one cfg_info th_dw lg_band Debug None [ICall KFunPtr 7 (B "x")] = [].
 Proof. reflexivity. Qed.
 Example C05_ex_named_interleaved :
-  run cfg_info [OSet 1 Fatal; OOpen 0 lg_band Warn None; OPut 0 (ICall KFunctor 1 (B "p")); OSet 0 Fatal;
+  run cfg_info [OSet 0 1 Fatal; OOpen 0 lg_band Warn None; OPut 0 (ICall KFunctor 1 (B "p")); OSet 0 0 Fatal;
                 OOne lg_band Error None [IStr (B "q")]; OPut 0 (INum (-5)); OClose 0]
   = [Call 1; Format (mkRecord Warn (B "") (B "p-5")); Sink 0 Warn (B "3||p-5"); Sink 1 Warn (B "3||p-5")].
+Proof. reflexivity. Qed.
+Example C05_ex_other_record_type :
+  run cfg_info [OSet 1 0 Warn; OSet 1 1 Fatal; OSet 0 0 Fatal; OOne lg_band_b Error (Some (B "tg")) [IStr (B "q")]; OOne lg_band Error None [IStr (B "r")]]
+  = [Format (mkRecord Error (B "") (B "q")); Sink 0 Error (B "4||q"); Sink 1 Error (B "4||q")].
 Proof. reflexivity. Qed.
 Example C05_ex_enabled_hyp : enabled Info th_dw lg_band Warn = true.
 Proof. reflexivity. Qed.
